@@ -140,6 +140,10 @@ CORPUS = [
     ["append@0", "append@0", "append@0", "delcur", "delcur", "delcur", "append", "gc"],
     # expiry exactly at a snapshot's timestamp keeps it (>= cutoff), one below drops nothing more
     ["append@100", "append@100", "append@100", "expire:ts2", "gc", "expire:ts2", "append+expire:ts3", "gc"],
+    # a wall clock that steps BACK between commits: the current pointer after deleting the current snapshot follows COMMIT order
+    ["append@1000", "append@-600", "append@2000", "delcur", "delcur", "append@-300", "delcur", "gc"],
+    # a transaction that re-adds a file older snapshots reference (undoing a delete) together with a missing file: it fails, rolls back
+    ["append", "append2", "delete:whole", "readd-fail", "gc", "readd-fail", "append", "gc"],
     # failed commits between real ones, cleaned by collection, then deletes of whole manifests
     ["append", "failed-append", "append2", "failed-delete", "gc", "delete:whole", "failed-append", "gc", "delcur", "gc"],
 ]
@@ -162,7 +166,7 @@ def _one_history(ctx, rep, rng, path, model_ok, hi, script=None):
                     kind, dt_ = kind.split("@")
                 if ":" in kind:
                     kind, arg = kind.split(":")
-                now += int(dt_) if dt_ is not None else 1000
+                now = max(1, now + (int(dt_) if dt_ is not None else 1000))
             else:
                 kind = rng.choice(["append", "append", "append2", "delete", "delete", "delete+append", "append+expire", "expire", "delsnap",
                                    "delcur", "failed-append", "failed-delete", "gc", "reopen"])
@@ -272,6 +276,28 @@ def _one_history(ctx, rep, rng, path, model_ok, hi, script=None):
                     finally:
                         undo()
                     tok = ("f", 1, "-") if failed else f"c:{now}:{h.next_snap}:-:1:-"
+                elif kind == "readd-fail":
+                    # every data file some retained snapshot references but the current one does not
+                    v0 = reader.view(path)
+                    cur_files = set(next((s_["files"] for s_ in v0["snaps"] if s_["id"] == v0["cur"]), []))
+                    older = sorted({f_ for s_ in v0["snaps"] for f_ in s_["files"]} - cur_files)
+                    if not older:
+                        continue
+                    from datashard.data_structures import DataFile, FileFormat
+                    mk_df = lambda rel: DataFile(file_path="/" + rel, file_format=FileFormat.PARQUET, partition_values={}, record_count=1,
+                                                 file_size_in_bytes=max(1, os.path.getsize(os.path.join(path, rel)) if os.path.exists(os.path.join(path, rel)) else 1))
+                    try:
+                        with t.new_transaction() as tx:
+                            tx.append_files([mk_df(older[0])])
+                            tx.append_files([mk_df("data/does_not_exist.parquet")])
+                            tx.commit()
+                        failed = False
+                    except Exception:       # noqa: BLE001
+                        failed = True
+                    if not failed:
+                        rep.violate("C09:operation-raises:readd-fail:not-raised", "a transaction naming a missing file committed", case)
+                        return
+                    tok = ("f", 0, "-")
                 elif kind == "gc":
                     old = time.time() - 7200
                     for r, _d, fs in os.walk(path):
@@ -366,12 +392,24 @@ def _one_history(ctx, rep, rng, path, model_ok, hi, script=None):
                         return
             # ---- oracle 2: lookup by timestamp = most recently committed retained snapshot not newer than t
             retained = [(h.recorded[h.snap_ord[s["id"]]][4], h.recorded[h.snap_ord[s["id"]]][5], s["id"]) for s in v["snaps"]]
+            by_commit = sorted(retained, key=lambda x: x[1])
+            monotone = all(a[0] <= b[0] for a, b in zip(by_commit, by_commit[1:]))
             for q in sorted({ts for ts, _c, _i in retained} | {ts - 1 for ts, _c, _i in retained} | {now + 5, 0}):
                 cands = [(c, i) for ts, c, i in retained if ts <= q]
                 want = max(cands)[1] if cands else None
                 got = t.time_travel(timestamp=q)
                 goti = None if got is None else got.snapshot_id
                 rep.evaluations += 1
+                if not monotone:
+                    # a clock that stepped back: "most recently committed" and "latest timestamp" part ways; demand only what both readings
+                    # share — an answer exists iff some retained snapshot is not newer than q, it is not newer than q, and no retained
+                    # snapshot lies strictly between it and q
+                    ts_of = {i: ts for ts, _c, i in retained}
+                    ok = (goti is None) == (not cands) and (goti is None or (ts_of.get(goti, q + 1) <= q and not any(ts_of[goti] < ts <= q for ts, _c, _i in retained)))
+                    if not ok:
+                        rep.violate("C09:lookup-by-timestamp-wrong", f"after {kind} (non-monotonic clock): time_travel(timestamp={q}) → #{h.snap_ord.get(goti)}", case)
+                        return
+                    continue
                 if goti != want:
                     rep.violate("C09:lookup-by-timestamp-wrong",
                                 f"after {kind}: time_travel(timestamp={q}) → #{h.snap_ord.get(goti)} ; most recently committed retained snapshot not newer: #{h.snap_ord.get(want)}", case)
